@@ -141,6 +141,17 @@ def pair_doc(rng):
             else: body += blk + ['', ref, '']                            # block before its reference
         if rng.random() < 0.5: body.append('  plain%dz' % si)
         lines += body or ['  text%dz' % si]
+        # subsections that re-use the markers of the section's own introduction (numbering that restarts per provision): each
+        # reference still gets the block of its own provision, the nearest one
+        if ms and rng.random() < 0.5:
+            for sub in 'ab'[:rng.randint(1, 2)]:
+                lines.append('  SUBSEC (%s)' % sub)
+                for m in rng.sample(ms, rng.randint(1, len(ms))):
+                    k += 1; tok = 'note%dz' % k; want.append((k, m, tok))
+                    ref = '    ref%dz {{FOOTNOTE %s}} tail%dz' % (k, m, k)
+                    blk = ['    FOOTNOTE ' + m, '      ' + tok + ' more%dz' % k]
+                    lines += ([ref, ''] + blk + ['']) if rng.random() < 0.5 else (blk + ['', ref, ''])
+            if rng.random() < 0.3: lines.append('  closing%dz' % si)
     return '\n'.join(lines) + '\n', want
 
 def _pair_oracle(args):
